@@ -231,7 +231,10 @@ class C12(Prop):
                    "+0.0 and -0.0 compare equal; NaN equals NaN",
                    "the installed SIMDe 0.7.4 lacks simde_kxor_mask*/simde_knot_mask*; the server supplies one-line shims (a^b, ~a) before including simde_avx512.hpp",
                    "combinations that do not compile are unsupported (listed in UNSUPPORTED): reciprocal, divide.reduce/outer, subtract.reduce with axis None/list, keepdims=None, "
-                   "matmul with a row-major rhs, simde_AVX512 matmul f64, integer element types"]
+                   "matmul with a row-major rhs, simde_AVX512 matmul f64, unary ops / divide / 8- and 16-bit elements on integers, int64 multiply on x86_SSE/x86_AVX, integer matmul "
+                   "without an integer fmadd",
+                   "integer operands are row-major only and reduce uses the default keepdims / no initial (server instantiation budget); integer data are overflow-free by construction",
+                   "input classes of the known findings (KNOWN_IDS, see _findings) are excluded by construction; NMV_C12_EXCLUDE=id,... adds ids, NMV_NO_EXCLUDE=1 disables all exclusions"]
 
     # NMV_C12_CTXS=x86_AVX,... restricts a run to some contexts and then uses the per-context servers simd_<ctx> (same objects as the
     # full server "simd", 9 instead of 49 translation units each): meant for mutation runs, where every header change rebuilds everything
@@ -383,7 +386,7 @@ class C12(Prop):
 
     # ------------------------------------------------------------------ random tier
     def n_random(self, tier):
-        return 40000 if tier == "quick" else 400000
+        return 24000 if tier == "quick" else 400000
 
     def strategy(self, tier):
         ctxs = self.ctxs
